@@ -9,7 +9,6 @@ import (
 	"io"
 	"strings"
 	"sync"
-	"time"
 
 	. "vh/lib"
 	"vh/transports"
@@ -138,13 +137,9 @@ func runStream(cd int64, clock int, wire [][]byte) Val {
 		_ = p.Header.Unmarshal(d)
 		dm.WriteRtpPacket(p)
 	}
-	dead := false
-	select {
-	case <-rec.done:
-	case <-dc.died:
-		dead = true
-	case <-time.After(5 * time.Second):
-		dead = true
+	dead, uneval := awaitOrIdle(rec.done, dc.died)
+	if uneval {
+		return unevalVal("the demuxer did not get to the end marker within the long bound")
 	}
 	rec.mu.Lock()
 	defer rec.mu.Unlock()
